@@ -2,7 +2,7 @@
    Only statements; proofs by reference (proofs/RotateProofs.v).  Model: model/Rotate.v
    (ctrl/qryn/maintenance/rotate.go: Rotate, rotateTables, storagePolicyUpdate, forgetSetting, get/putSetting). *)
 From Coq Require Import List ZArith Bool String.
-From Qryn Require Import model.Rotate model.RotateCfg proofs.RotateProofs proofs.RotateCfgProofs.
+From Qryn Require Import model.Rotate model.RotateCfg model.RotateConc proofs.RotateProofs proofs.RotateCfgProofs proofs.RotateConcProofs.
 Import ListNotations.
 Open Scope string_scope.
 Open Scope list_scope.
@@ -171,3 +171,46 @@ Theorem bad_samples_days_refused : forall e, getenv e "SAMPLES_DAYS" <> "" -> at
   port_ch_env e [] = None.
 Proof. exact port_ch_env_bad_days. Qed.
 Print Assumptions bad_samples_days_refused.
+
+(* ------------------------------------------------------------------ several instances at the same time
+   model/RotateConc.v: every instance runs Rotate statement by statement on the shared database, the schedule picks
+   the instance that issues the next statement (an instance never picked again has crashed). *)
+
+(* The statement-by-statement model is the model of the theorems above: an instance running alone issues exactly the
+   calls of Rotate.run, with the same effect, and has finished after them. *)
+Theorem alone_is_run : forall cfg d n, (List.length (run_log cfg None d) <= n)%nat ->
+  solo n d (start cfg) [] = (run_db cfg None d, {| i_cfg := cfg; i_pc := PDone |}, map fst (run_log cfg None d)) /\
+  snd (run cfg None d) = true.
+Proof. exact solo_is_run. Qed.
+Print Assumptions alone_is_run.
+
+(* Any number of instances with the SAME configuration, any interleaving of their statements (any instance may stop
+   anywhere), from a database whose records name only applied values: at every point of the schedule a record names
+   only a value all tables of its group carry, and once all instances have finished every configured group's
+   record and tables are at the configuration. *)
+Theorem concurrent_instances_converge : forall cfg n sched d, (0 < n)%nat -> consistent d ->
+  let s := sched_run sched (init_sys d (repeat cfg n)) in
+  consistent (s_db s) /\ (all_done s = true -> converged cfg (s_db s)).
+Proof. exact conc_same_config. Qed.
+Print Assumptions concurrent_instances_converge.
+
+(* Every instance finishes: each of its statements lowers a measure that starts at 45, whatever the others do to the
+   database in between. *)
+Theorem every_instance_finishes :
+  (forall cfg, measure (start cfg) = 45%nat) /\
+  (forall d i c d' i', step d i = Some (c, d', i') -> (measure i' < measure i)%nat) /\
+  (forall i, measure i = 0%nat -> done i = true).
+Proof. split; [exact measure_start|]. split; [exact step_measure|exact measure_zero_done]. Qed.
+Print Assumptions every_instance_finishes.
+
+(* Instances with DIFFERENT configurations running at the same time are outside the property (its runs are
+   sequential) and do break it: an interleaving of two complete, error-free runs (30 days / 60 days) after which the
+   record of metrics_15s says 30 days, the table carries 60 days, and the next run with 30 days skips the group. *)
+Theorem concurrent_different_configurations_diverge :
+  consistent fresh /\ all_done cc_final = true /\ ~ consistent (s_db cc_final) /\
+  recd (s_db cc_final) TtlMetrics = desired cc_a TtlMetrics /\
+  d_ttl (s_db cc_final) Metrics15s = desired cc_b TtlMetrics /\
+  d_ttl (run_db cc_a None (s_db cc_final)) Metrics15s = desired cc_b TtlMetrics /\
+  converged_b cc_a (run_db cc_a None (s_db cc_final)) = false.
+Proof. exact conc_different_configs_diverge. Qed.
+Print Assumptions concurrent_different_configurations_diverge.
